@@ -4,6 +4,7 @@ import RactorModel.Lemmas.AdmissionLate
 import RactorModel.Lemmas.AdmissionIds
 import RactorModel.Lemmas.AdmissionQueue
 import RactorModel.Lemmas.AdmissionOracle
+import RactorModel.Lemmas.AdmissionShut
 
 /-!
 # C07 — drain processes everything accepted and admits nothing afterwards
@@ -37,6 +38,24 @@ theorem send_after_close_rejected (progs : List (List Op)) (sched : List Tid) :
     List.countP_pos_iff.mpr ⟨r, hr, by simp [Ret.errFor, hk, hres]⟩
   have := hI.one
   omega
+
+/-- (1, schedule form) *After the close nothing is admitted.* If in some reachable state admission
+is closed (a drainer's `fetch_or` has been executed) and the send of message `m` has not performed
+its first step yet — its id is not even allocated, or its frame is still parked at `send.status` —
+then whatever happens afterwards, `m` is never enqueued and the send can only return
+`Err(SendErr(m))`: the message is handed back. -/
+theorem send_started_after_close_is_rejected (progs : List (List Op)) (sched₁ sched₂ : List Tid) (m : Nat)
+    (hc : (run (init progs) sched₁).sh.word.closed = true)
+    (hnot : (run (init progs) sched₁).sh.nextId ≤ m ∨
+      ∃ stack ∈ (run (init progs) sched₁).threads, ∃ f ∈ stack, f.pc = .sStatus ∧ f.id = m) :
+    (run (run (init progs) sched₁) sched₂).sh.enq.count (.msg m) = 0 ∧
+    ∀ r ∈ (run (run (init progs) sched₁) sched₂).sh.rets, r.kind = .send → r.id = m → r.res = .sendErr := by
+  have hI := idInv_run m _ sched₁ (idInv_init m progs)
+  have hS := shutInv_run m _ sched₂ (shutInv_of_closed m _ hI hc hnot)
+  refine ⟨hS.not_enq, fun r hr hk hid => ?_⟩
+  have := List.countP_eq_zero.mp hS.rets_ok r hr
+  simp only [Ret.notHandedBack, hid, beq_self_eq_true, hk, Bool.true_and, Bool.not_eq_true] at this
+  cases hres : r.res <;> simp_all
 
 /-- What `late` records: the first step of a send reads `closed` into the ghost flag (together with the ids of the sends that have already returned `Ok`; the
 send either returns `SendErr` at once because of the status, or goes on to `admit.load`). -/
@@ -257,9 +276,17 @@ example : (run (init [[.send [.drain] false]]) (List.replicate 15 (.t 0))).sh.en
 example : endState (run (init exampleProgs) (exampleSched ++ [.recv, .recv, .setStatus 5, .rxClose, .rxFlush])) = true := by
   decide
 
+/-- hypotheses of `send_started_after_close_is_rejected` are satisfiable: after the drainer's close
+(thread 1, two steps) thread 2's send is parked at `send.status` with id 0 … and is rejected -/
+example : (run (init exampleProgs) [.t 1, .t 1, .t 2]).sh.word.closed = true
+    ∧ (∃ stack ∈ (run (init exampleProgs) [.t 1, .t 1, .t 2]).threads, ∃ f ∈ stack, f.pc = .sStatus ∧ f.id = 0)
+    ∧ (run (init exampleProgs) [.t 1, .t 1, .t 2, .t 2, .t 2]).sh.rets = [⟨.send, 0, .sendErr, true, []⟩] := by
+  refine ⟨by decide, ⟨_, List.mem_of_getElem? (i := 2) rfl, _, List.mem_cons_self, rfl, rfl⟩, by decide⟩
+
 end C07
 
 #print axioms C07.send_after_close_rejected
+#print axioms C07.send_started_after_close_is_rejected
 #print axioms C07.first_step_records_closed
 #print axioms C07.count_is_tickets
 #print axioms C07.marker_at_most_once
